@@ -261,6 +261,67 @@ def run_mode(args):
     return {"argv": argv, "rc": r.returncode, "out": r.stdout.decode("latin-1"), "err": r.stderr.decode("latin-1")}
 
 
+def symbol_problems(wd, info):
+    """nm over the scanners' objects: (signature, text) for every external definition without its prefix, every writable static object
+    in a reentrant scanner, every symbol defined by two scanners"""
+    probs = []
+    defined = {}
+    nsym = 0
+    for fl, obj in zip(FLAVOURS, info["objects"]["plain"]):
+        p = fl["name"]
+        for t, s in nm_syms(wd, obj):
+            if t in "TDBRCGSV":
+                nsym += 1
+                defined.setdefault(s, []).append(p)
+                if fl["api"] != "cxx" and not s.lower().startswith(p) and not s.startswith("vf_"):
+                    probs.append(("C12:symbols:unprefixed:%s:%s" % (p, s), "scanner %s (prefix %s) defines the external symbol %s without its prefix" % (p, p, s)))
+            if t in "bBdDC" and fl["api"] in ("r", "c99") and not s.startswith("vf_") and s != p + "_adapter":
+                if fl.get("tables") and re.match(r"(yy|%s)_?(accept|ec|meta|base|def|nxt|chk|acclist|NUL_trans|start_state_list|rule_can_match_eol|transition|dmap|tables_name)$" % p, s.replace(p, "yy", 1) if s.startswith(p) else s):
+                    continue       # pointers to the loaded tables: shared, written once by yytables_fload (property: shared read-only data)
+                if fl.get("tables") and re.match(r"yy(dmap|tables_name)", s):
+                    continue
+                probs.append(("C12:symbols:writable-static:%s:%s" % (p, s), "reentrant scanner %s has writable static storage: %s (%s)" % (p, s, t)))
+    for s, who in defined.items():
+        if len(who) > 1 and not s.startswith("_Z") and not s.startswith("vf_") and not s.startswith("DW.ref."):
+            probs.append(("C12:symbols:clash:" + s, "symbol %s is defined by scanners %s" % (s, who)))
+    return probs, nsym
+
+
+def replay_symbols(args):
+    want = args[0]
+    flex = build.get_flex()
+    wd = H.mkscratch("c12r")
+    try:
+        ok, info = build_program(flex, wd, None)
+        if not ok:
+            return {"msgs": ["the multi-scanner program does not build: %s" % str(info)[:600]]}
+        probs, _ = symbol_problems(wd, info)
+        return {"msgs": [w for sig, w in probs if sig == want]}
+    finally:
+        shutil.rmtree(wd, ignore_errors=True)
+
+
+def replay_schedule(args):
+    """./vf replay: rebuild the multi-scanner program and re-run one recorded run (a mode with its arguments, or one schedule)."""
+    argv, choices = args
+    flex = build.get_flex()
+    wd = H.mkscratch("c12r")
+    try:
+        ok, info = build_program(flex, wd, None)
+        if not ok:
+            return {"msgs": ["the multi-scanner program does not build: %s" % str(info)[:600]]}
+        exe = "mt.tsan.exe" if argv and argv[0] == "free" else "mt.asan.exe"
+        if choices and argv[0] in ("inter", "threads"):
+            argv = ["replay", argv[0], argv[1], choices]
+        r = run_mode((wd, exe, list(argv), 900))
+        out, err = r.get("out", ""), r.get("err", "")
+        bad = r.get("timeout") or r.get("rc") != 0 or "MISMATCH" in out or "CRASH" in out or "ThreadSanitizer" in err or "AddressSanitizer" in err
+        print(out[-1500:])
+        return {"msgs": [("run %s: rc=%s" % (" ".join(argv), r.get("rc")))] if bad else []}
+    finally:
+        shutil.rmtree(wd, ignore_errors=True)
+
+
 def run(tier):
     ck = Check("C12", tier, "model_checking")
     flex = ck.flex()
@@ -291,25 +352,9 @@ def run(tier):
             ck.cov.update(states=1, transitions=1, traces_validated_against_impl=1, notes_build="the multi-scanner program could not be built; nothing was explored")
             return ck.finish()
         # ---------------- symbols
-        defined = {}
-        nsym = 0
-        for fl, obj in zip(FLAVOURS, info["objects"]["plain"]):
-            p = fl["name"]
-            for t, s in nm_syms(wd, obj):
-                if t in "TDBRCGSV":
-                    nsym += 1
-                    defined.setdefault(s, []).append(p)
-                    if fl["api"] != "cxx" and not s.lower().startswith(p) and not s.startswith("vf_"):
-                        ck.violation("C12:symbols:unprefixed:%s:%s" % (p, s), "scanner %s (prefix %s) defines the external symbol %s without its prefix" % (p, p, s), files=files)
-                if t in "bBdDC" and fl["api"] in ("r", "c99") and not s.startswith("vf_") and s != p + "_adapter":
-                    if fl.get("tables") and re.match(r"(yy|%s)_?(accept|ec|meta|base|def|nxt|chk|acclist|NUL_trans|start_state_list|rule_can_match_eol|transition|dmap|tables_name)$" % p, s.replace(p, "yy", 1) if s.startswith(p) else s):
-                        continue       # pointers to the loaded tables: shared, written once by yytables_fload (property: shared read-only data)
-                    if fl.get("tables") and re.match(r"yy(dmap|tables_name)", s):
-                        continue
-                    ck.violation("C12:symbols:writable-static:%s:%s" % (p, s), "reentrant scanner %s has writable static storage: %s (%s)" % (p, s, t), files=files)
-        for s, who in defined.items():
-            if len(who) > 1 and not s.startswith("_Z") and not s.startswith("vf_") and not s.startswith("DW.ref."):
-                ck.violation("C12:symbols:clash:" + s, "symbol %s is defined by scanners %s" % (s, who), files=files)
+        probs, nsym = symbol_problems(wd, info)
+        for sig, what in probs:
+            ck.violation(sig, what, files=files, replay={"module": "vflib.checks.c12", "func": "replay_symbols", "args": [sig]})
         # ---------------- exploration
         bound_pair, bound_multi = (2, 1) if quick else (4, 3)
         limit = 100 if quick else 1500
@@ -339,14 +384,14 @@ def run(tier):
                 m = re.search(r"MISMATCH mode=(\S+) config=(\S+) instance=(\d+)\((\w+)\)", out)
                 ck.violation("C12:%s:isolation:%s" % (m.group(1), m.group(4)),
                              "instance %s(%s) in configuration %s [%s] does not produce the token stream it produces alone:\n%s" % (
-                                 m.group(3), m.group(4), m.group(2), " ".join(argv), out[out.find("MISMATCH"):][:1500]), files=files, case=replay)
+                                 m.group(3), m.group(4), m.group(2), " ".join(argv), out[out.find("MISMATCH"):][:1500]), files=files, case=replay, replay={"module": "vflib.checks.c12", "func": "replay_schedule", "args": [replay["argv"], replay["choices"] or ""]})
                 continue
             if "ThreadSanitizer" in err:
                 m = re.search(r"WARNING: ThreadSanitizer: ([^\n]*)(.*?)(?:\n\n|$)", err, re.S)
-                ck.violation("C12:free:race", "ThreadSanitizer report while all instances ran on free-running threads: %s" % err[err.find("WARNING: ThreadSanitizer"):][:1800], files=files, case=replay)
+                ck.violation("C12:free:race", "ThreadSanitizer report while all instances ran on free-running threads: %s" % err[err.find("WARNING: ThreadSanitizer"):][:1800], files=files, case=replay, replay={"module": "vflib.checks.c12", "func": "replay_schedule", "args": [replay["argv"], replay["choices"] or ""]})
                 continue
             if "CRASH" in out or "SANITIZER-REPORT" in out or "AddressSanitizer" in err or "runtime error" in err or r["rc"] not in (0,):
-                ck.violation("C12:%s:crash" % argv[0], "run '%s' failed (rc=%s): %s %s" % (" ".join(argv), r["rc"], out[-600:], err[-1200:]), files=files, case=replay)
+                ck.violation("C12:%s:crash" % argv[0], "run '%s' failed (rc=%s): %s %s" % (" ".join(argv), r["rc"], out[-600:], err[-1200:]), files=files, case=replay, replay={"module": "vflib.checks.c12", "func": "replay_schedule", "args": [replay["argv"], replay["choices"] or ""]})
                 continue
             if argv[0] == "solo":
                 ck.sample({"solo": out[:400]})
